@@ -180,7 +180,8 @@ def sdmx_settings(kind):
     if kind == "SADM":
         return S.SADMSettings("smooth")
     if kind == "SDMXFull":
-        return S.SDMXFullSettings({1.0: ([0, 1], [2, 1, 1, 0]), 2.0: ([1], [1, 0, 0, 0])})
+        # keys deliberately not in ascending order: the package sorts the ratios in some places and iterates the dict in others
+        return S.SDMXFullSettings({2.0: ([1], [1, 0, 0, 0]), 1.0: ([0, 1], [2, 1, 1, 0]), 1.5: ([0], [1, 1, 0, 0])})
     raise ValueError(kind)
 
 
